@@ -15,6 +15,7 @@ import (
 	"go/ast"
 	"go/types"
 	"sort"
+	"strings"
 )
 
 const optionReadClause = "options honoured (E44): every field of a backend's Options (and of the option structs nested in it) that concerns this property is read by the backend's code - a field that is only copied between option structs has no effect on the output"
@@ -157,5 +158,81 @@ func init() {
 			println(o.Verdict, o.Construct, o.Pos, o.Msg)
 		}
 		println("ok:", nOK)
+	}
+}
+
+// binding.fieldread (C17): everything a WGSL binding attribute says is stored in
+// a field of an ir binding struct (BuiltinBinding, LocationBinding,
+// Interpolation, ResourceBinding). A backend that never READS one of those
+// fields cannot express the attribute: spirv never reading
+// BuiltinBinding.Invariant means @invariant is dropped from every SPIR-V module.
+// For every backend and every such field there is at least one read in the
+// backend's packages.
+func (c *Ctx) runBindingFieldRead(r *Report, rule string, backends []string, exceptions map[string]string) {
+	n := 0
+	irPkg := c.ByPath[modPath+"/ir"]
+	if irPkg == nil {
+		r.undecided(rule, "ir:binding-structs", "", "package ir not loaded")
+		return
+	}
+	var fields []*types.Var
+	names := map[*types.Var]string{}
+	for _, sn := range []string{"BuiltinBinding", "LocationBinding", "Interpolation", "ResourceBinding"} {
+		obj := irPkg.Types.Scope().Lookup(sn)
+		if obj == nil {
+			continue
+		}
+		st, ok := obj.Type().Underlying().(*types.Struct)
+		if !ok {
+			continue
+		}
+		for i := 0; i < st.NumFields(); i++ {
+			fields = append(fields, st.Field(i))
+			names[st.Field(i)] = sn + "." + st.Field(i).Name()
+		}
+	}
+	for _, be := range backends {
+		read := map[*types.Var]bool{}
+		for _, p := range c.Roots {
+			rel := relPkg(p.PkgPath)
+			if rel != be && !strings.HasPrefix(rel, be+"/") {
+				continue
+			}
+			for _, f := range p.Syntax {
+				ast.Inspect(f, func(m ast.Node) bool {
+					if se, ok := m.(*ast.SelectorExpr); ok {
+						if v, ok := p.TypesInfo.Uses[se.Sel].(*types.Var); ok && names[v] != "" {
+							read[v] = true
+						}
+					}
+					return true
+				})
+			}
+		}
+		for _, v := range fields {
+			n++
+			cons := be + ":" + names[v]
+			switch {
+			case read[v]:
+				r.ok(rule, cons, c.pos(v.Pos()), "")
+			case exceptions[cons] != "":
+				r.exc(rule, cons, c.pos(v.Pos()), exceptions[cons])
+			default:
+				r.viol(rule, cons, c.pos(v.Pos()), "the "+be+" backend never reads ir."+names[v]+": the attribute stored there cannot appear in its output")
+			}
+		}
+	}
+	r.inst("binding.fieldread", n)
+}
+
+func init() {
+	dumpers["bindingfields"] = func(c *Ctx, parts []string) {
+		r := newReport("dump")
+		c.runBindingFieldRead(r, "binding.fieldread", []string{"spirv", "hlsl", "msl", "glsl", "dxil"}, nil)
+		for _, o := range r.Obs {
+			if o.Verdict != "ok" {
+				println(o.Verdict, o.Construct, o.Msg)
+			}
+		}
 	}
 }
